@@ -93,7 +93,8 @@ def check_C13(ctx):
     for kf in ctx.kf:
         if kf.get("id") != "C13-rel-unc-root-loop":
             continue
-        wit = " ".join(kf["witness"].split()[:4])
+        w = kf["witness"]
+        wit = " ".join((w.get("case", "") if isinstance(w, dict) else w).split()[:4])
         mmk = ctx.stream("path-kf", "path", "path", tags="avfs_setostype", replay_lines=[wit])
         if mmk is None:
             return
